@@ -6,6 +6,7 @@ import os
 import random
 import sys
 import time
+import warnings
 from fractions import Fraction
 
 import numpy
@@ -468,6 +469,128 @@ def phonon_volume_order(chk, tier, rng):
         replay_volume_order(chk, bad3[0], "interpolate_modes(%s) depends on the order of the volume blocks" % bad3[1], method=bad3[1], order=bad3[2])
 
 
+def static_rows_handover(chk, tier, rng):
+    """Rows of the static table (with its lattice block) presented in another order: whatever Calculator._load does with them (it may
+    re-order them), each row's volume must stay paired with that row's components and that row's lattice parameters, and the hand-over must
+    be the same for every presentation (or an error)."""
+    import itertools
+    import cij.core.calculator as cc
+    import cij.io.traditional.models as md
+    import cij.io.traditional.elast_dat as ed
+    from cij.util import c_
+    nv = 4
+    vol_values = [420.0, 395.0, 371.0, 350.0]
+    perms = [tuple(range(nv)), tuple(reversed(range(nv))), (1, 2, 3, 0), (0, 2, 1, 3), (2, 0, 3, 1)]
+    if tier != "quick":
+        perms = list(itertools.permutations(range(nv)))
+    ctx = new_context()
+    TAB = {k: [ctx.var("t_%s_%d" % (k, r)) for r in range(nv)] for k in ("c11", "c12", "c44")}
+    LAT = [[ctx.var("lat_%d_%d" % (r, a), positive=True) for a in range(3)] for r in range(nv)]
+    E = [ctx.var("E%d" % i) for i in range(nv)]
+
+    def phonon():
+        vols = [md.VolumeData(0.0, vol_values[r], E[r], [md.QPointData((0.0, 0.0, 0.0), [1.0, 2.0, 3.0])]) for r in range(nv)]
+        return md.QHAInputData(nv, 1, 3, 1, 1, [md.QPointWeight((0.0, 0.0, 0.0), 1.0)], vols)
+
+    def table(perm):
+        rows = [ed.ElastVolumeData(vol_values[r], {c_(k[1:]): TAB[k][r] for k in TAB}) for r in perm]
+        return ed.ElastData(vol_values[0], nv, 100.0, rows, [list(LAT[r]) for r in perm])
+
+    def load(perm):
+        fake = PC.Obj()
+        fake.io = PC.Obj()
+        fake.io.traditional = PC.Obj()
+        fake.io.read_config = lambda fn: {"qha": {"input": "input01", "settings": {}}, "elast": {"input": "input02", "settings": {}}}
+        fake.io.apply_default_config = lambda c: c
+        fake.io.traditional.read_energy = lambda fn: phonon()
+        fake.io.traditional.read_elast_data = lambda fn: table(perm)
+        calc = object.__new__(cc.Calculator)
+        with patched((cc, {"cij": fake, "QHACalculatorAdapter": lambda settings, qha_input: "adapter"})):
+            calc._load("settings.yaml")
+        return calc.elast_data
+
+    def triples(data):
+        lat = list(data.lattice_parmeters)
+        out = []
+        for i, row in enumerate(data.volumes):
+            out.append((float(row.volume), tuple(sorted((repr(k), Sym.of(v).key()) for k, v in row.static_elastic_modulus.items())),
+                        tuple(Sym.of(x).key() for x in lat[i]) if i < len(lat) else None))
+        return out
+    want = sorted(triples(table(perms[0])))
+    t0 = time.time()
+    fails = []
+    seen = {}
+    for perm in perms:
+        try:
+            got = triples(X.run_single_path(lambda: load(perm), name="C13:_load(static)"))
+        except SymError as e:
+            chk.inconclusive("static rows hand-over %s" % (perm,), str(e))
+            return
+        except Exception:
+            continue            # rejected with an error: allowed
+        if sorted(got) != want:
+            fails.append((perm, "rows presented in order %s: a row's volume is no longer paired with its own components / lattice parameters" % (perm,)))
+        seen[perm] = got
+    chk.obligation("static-table rows (with lattice block) in %d orders: Calculator._load keeps every row's volume, components and lattice "
+                   "parameters together" % len(perms), "unsat" if not fails else "sat", seconds=round(time.time() - t0, 2), kind="wiring",
+                   detail=[f[1] for f in fails[:2]])
+    chk.witness("static rows hand-over: at least one permuted presentation was accepted", "sat" if len(seen) > 1 or fails else "unsat")
+    if fails:
+        replay_static_rows(chk, fails[0][0], fails[0][1])
+
+
+def replay_static_rows(chk, perm, what):
+    """Real Calculator on the shipped akimotoite example (it has a lattice block) with the rows of input02 -- and the lattice rows with them --
+    rotated / shuffled; results compared with the shipped presentation."""
+    import shutil
+    import tempfile
+    import yaml
+    from cij.core.calculator import Calculator
+    src = os.path.join(os.environ.get("CIJ_REPO", "/repo"), "examples", "akimotoite")
+    lines = open(os.path.join(src, "input02")).read().split("\n")
+    n = int(lines[1].split()[1])
+    rows = lines[3:3 + n]
+    rest = lines[3 + n:]
+    lat_at = next(i for i, l in enumerate(rest) if l.strip() and not l.strip()[0].isdigit())
+    lat_rows = [l for l in rest[lat_at + 1:] if l.strip()]
+
+    def run(order):
+        d = tempfile.mkdtemp(prefix="c13sr_")
+        try:
+            shutil.copy(os.path.join(src, "input01"), d)
+            with open(os.path.join(d, "input02"), "w") as fp:
+                fp.write("\n".join(lines[:3] + [rows[i] for i in order] + rest[:lat_at + 1] + [lat_rows[i] for i in order]) + "\n")
+            cfg = yaml.safe_load(open(os.path.join(src, "settings.yaml")))
+            cfg["qha"]["settings"].update(NT=6, NTV=41)
+            with open(os.path.join(d, "settings.yaml"), "w") as fp:
+                yaml.safe_dump(cfg, fp)
+            c = Calculator(os.path.join(d, "settings.yaml"))
+            return {"adiabatic c%d%d(T,V)" % k.v: numpy.array(v) for k, v in c.modulus_adiabatic.items()}
+        finally:
+            shutil.rmtree(d, ignore_errors=True)
+    import logging
+    logging.disable(logging.CRITICAL)
+    try:
+        with numpy.errstate(all="ignore"), warnings.catch_warnings():
+            warnings.simplefilter("ignore")
+            base = run(list(range(n)))
+            for name, order in (("rotated by one", list(range(1, n)) + [0]), ("rotated by three", list(range(3, n)) + [0, 1, 2]), ("reversed", list(range(n))[::-1])):
+                try:
+                    alt = run(order)
+                except Exception:
+                    continue
+                for k in base:
+                    a, b = base[k], alt[k]
+                    if a.shape != b.shape or not numpy.nanmax(numpy.abs(a - b)) <= 1e-6 * numpy.nanmax(numpy.abs(a)):
+                        chk.violation("static:row-order", "examples/akimotoite with the rows of the static table (and of its lattice block) %s: no error, but %s "
+                                      "differs by %.3g relative from the shipped order" % (name, k, float(numpy.nanmax(numpy.abs(a - b)) / numpy.nanmax(numpy.abs(a)))),
+                                      dict(order=name))
+                        return
+    finally:
+        logging.disable(logging.NOTSET)
+    chk.harness_error("C13 static rows: '%s' did not reproduce on the real calculator" % what)
+
+
 def replay_volume_order(chk, perm, what, method="lsq_poly", order=3):
     """Real Calculator on the shipped akimotoite example with the volume blocks of input01 re-ordered (lsq_poly, the packaged default)."""
     import shutil
@@ -679,6 +802,7 @@ def main():
     static_side(chk, tier, rng)
     static_reader_side(chk, tier, rng)
     phonon_volume_order(chk, tier, rng)
+    static_rows_handover(chk, tier, rng)
     chk.bound(shape="nq=3, np=3 (thorough np=6, nv=2)", q_permutations="all of q-points 2..nq", mode_permutations="seeded, Gamma acoustic slots fixed",
               static="6 volumes, rows permuted with row 0 (strain reference) first")
     chk.stub("numpy.polyfit -> exact least squares on the concrete Vandermonde matrix (static fit); eigh -> exact lift")
